@@ -379,6 +379,49 @@ class Interp:
             self.depth -= 1
             self.last_frame = frame
 
+    _PURE_CALLS = ('abs', 'fabs', 'sqrt', 'cbrt', 'min', 'max', 'fmin', 'fmax', 'float', 'int', 'pow', 'exp', 'log', 'sin', 'cos', 'tan', 'copysign', 'hypot', 'creal', 'cimag', 'cabs')
+
+    def _simple_arms(self, st):
+        def ok_expr(e_):
+            for n_ in ast.walk(e_):
+                if isinstance(n_, ast.Call) and not (isinstance(n_.func, ast.Name) and n_.func.id in self._PURE_CALLS) and not (
+                        isinstance(n_.func, ast.Attribute) and n_.func.attr in self._PURE_CALLS and isinstance(n_.func.value, ast.Name) and n_.func.value.id in ('np', 'numpy', 'math', 'cmath')):
+                    return False
+                if isinstance(n_, (ast.NamedExpr, ast.Yield, ast.Await, ast.Lambda)):
+                    return False
+            return True
+
+        def ok(body):
+            for s_ in body:
+                if isinstance(s_, ast.Pass): continue
+                if isinstance(s_, ast.Assign) and all(isinstance(t_, ast.Name) for t_ in s_.targets) and ok_expr(s_.value): continue
+                if isinstance(s_, ast.AugAssign) and isinstance(s_.target, ast.Name) and ok_expr(s_.value): continue
+                if isinstance(s_, ast.AnnAssign) and isinstance(s_.target, ast.Name) and s_.value is not None and ok_expr(s_.value): continue
+                if isinstance(s_, ast.If) and ok_expr(s_.test) and ok(s_.body) and ok(s_.orelse): continue
+                return False
+            return True
+        return ok(st.body) and ok(st.orelse)
+
+    def _if_convert(self, st, cond, fr, err):
+        if cond.op != 'cmp' and concrete(cond) is None and not (cond.op in ('mul', 'add') ):
+            pass
+        before = dict(fr.vars)
+        results = []
+        for arm in (st.body, st.orelse):
+            fr.vars = dict(before)
+            self.exec_block(arm, fr)
+            results.append(fr.vars)
+        fr.vars = dict(before)
+        then_v, else_v = results
+        for name in sorted(set(then_v) | set(else_v)):
+            a = then_v.get(name, before.get(name, NotImplemented)); b = else_v.get(name, before.get(name, NotImplemented))
+            if a is b:
+                if a is not NotImplemented: fr.vars[name] = a
+                continue
+            if a is NotImplemented or b is NotImplemented or not all(isinstance(unbox(v_), (Node, int, Fraction)) and not isinstance(v_, bool) for v_ in (a, b)):
+                raise err
+            fr.vars[name] = X.add(X.mul(cond, to_node(a)), X.mul(X.add(X.ONE, X.neg(cond)), to_node(b)))
+
     # ------------------------------------------------------------ statements
     def exec_block(self, body, fr):
         for st in body:
@@ -426,7 +469,16 @@ class Interp:
             h = self.hooks.get('if_test')
             c = h(self, st, fr) if h is not None else None
             if c is None:
-                c = self.truth(self.eval(st.test, fr), st, fr)
+                cv = self.eval(st.test, fr)
+                try:
+                    c = self.truth(cv, st, fr)
+                except AnalysisError as ex:
+                    # a data-dependent test nobody decides, whose arms only assign pure expressions to local scalars (a running maximum, a clamp, a sign choice):
+                    # both arms are evaluated and every assigned name becomes  mask * value_then + (1 - mask) * value_else  (statement-level if-conversion)
+                    if 'branch on a symbolic condition' not in str(ex) or not isinstance(unbox(cv), Node) or not self._simple_arms(st):
+                        raise
+                    self._if_convert(st, unbox(cv), fr, ex)
+                    return
             self.exec_block(st.body if c else st.orelse, fr)
             return
         if isinstance(st, ast.For):
